@@ -40,6 +40,7 @@ type Clause struct {
 	TmplVar   string
 	TmplTypes []string
 	NameOnly  bool // "names" clause
+	MonType   string // monitor clauses: the type of monSelf
 }
 
 type FuncContract struct {
@@ -60,6 +61,8 @@ type FuncContract struct {
 	Trusted    bool // contract assumed, body not verified (listed as assumption)
 	NoSafety   bool
 	NoOverflow bool
+	Cas        []*Clause // allowed transitions of the package's atomic cell at every compare-and-swap of this function
+	Lean       bool // obligations checked where a path ends (return, cut back edge) are not assumed afterwards
 	Uses       []string
 	Reveals    []string // opaque spec functions whose definition this function's proof may use
 	Hints      []*Clause // function-level `hint E`: instances of spec-function definitions, assumed at entry
@@ -102,12 +105,15 @@ type PkgContracts struct {
 	Lemmas  []*Lemma
 	Tables  []*TableInv
 	Closed  []*closedDecl
+	AtomicCells []*atomicCell
+	Monitors    []*monitorDecl
+	PureFields []string // TYPE.FIELD: calls through this function-valued struct field are pure and deterministic (assumed)
 	Opaque  map[string]bool
 	File    string
 	Raw     string
 }
 
-var kwRe = regexp.MustCompile(`^(import|func|property|requires|names|ensures|modifies|loop|may_panic|trusted|nosafety|timeout|spec|lemma|axiom|panics|table|nooverflow|closed|hint|uses|reveals)\b`)
+var kwRe = regexp.MustCompile(`^(import|func|property|requires|names|ensures|modifies|loop|may_panic|trusted|nosafety|timeout|spec|lemma|axiom|panics|table|nooverflow|lean|cas|atomiccell|monitor|closed|purefield|hint|uses|reveals)\b`)
 
 func parseContractFile(path string) (*PkgContracts, error) {
 	f, err := os.Open(path)
@@ -180,6 +186,39 @@ func parseContractFile(path string) (*PkgContracts, error) {
 				}
 			}
 			pc.Closed = append(pc.Closed, cd)
+			cur, curLemma, curTable = nil, nil, nil
+			last = nil
+		case "monitor":
+			// monitor T.mu invariant INV rely R
+			f := strings.Fields(rest)
+			i := strings.Index(f[0], ".")
+			if len(f) != 5 || i < 0 || f[1] != "invariant" || f[3] != "rely" {
+				return nil, fmt.Errorf("%s:%d: monitor TYPE.FIELD invariant SPEC rely SPEC", path, ln)
+			}
+			pc.Monitors = append(pc.Monitors, &monitorDecl{Type: f[0][:i], Field: f[0][i+1:], Inv: f[2], Rely: f[4], Line: ln})
+			cur, curLemma, curTable = nil, nil, nil
+			last = nil
+		case "atomiccell":
+			f := strings.Fields(rest)
+			if len(f) < 3 || f[1] != "invariant" || (len(f) > 3 && f[3] != "assuming") {
+				return nil, fmt.Errorf("%s:%d: atomiccell TYPE invariant SPEC [assuming EXPR over casOld]", path, ln)
+			}
+			ac := &atomicCell{Type: f[0], Inv: f[2], Line: ln}
+			if len(f) > 4 {
+				ac.Assuming = strings.TrimSpace(rest[strings.Index(rest, " assuming ")+10:])
+			}
+			pc.AtomicCells = append(pc.AtomicCells, ac)
+			cur, curLemma, curTable = nil, nil, nil
+			last = nil
+		case "cas":
+			if cur == nil {
+				return nil, fmt.Errorf("%s:%d: cas outside func", path, ln)
+			}
+			cl := &Clause{Kind: "cas", Text: rest, Line: ln, File: path}
+			cur.Cas = append(cur.Cas, cl)
+			last = cl
+		case "purefield":
+			pc.PureFields = append(pc.PureFields, rest)
 			cur, curLemma, curTable = nil, nil, nil
 			last = nil
 		case "table":
@@ -349,6 +388,9 @@ func parseContractFile(path string) (*PkgContracts, error) {
 			// must be exact (an obligation of class safe:overflow each)
 			cur.NoOverflow = true
 			last = nil
+		case "lean":
+			cur.Lean = true
+			last = nil
 		case "trusted":
 			cur.Trusted = true
 			last = nil
@@ -413,6 +455,7 @@ func (fc *FuncContract) allClauses() []*Clause {
 		out = append(out, cs...)
 	}
 	out = append(out, fc.Hints...)
+	out = append(out, fc.Cas...)
 	return out
 }
 
